@@ -28,6 +28,8 @@ struct GenOpts {
   const char* memory = "2M";
   int force_integrator = -1;     // 0 Euler 1 RK4 2 implicit 3 implicitfast
   bool energy_flag = true;
+  double sleep_tolerance = 0;    // >0: override (large values make trees fall asleep within tens of steps)
+  double extra_damping = 0;      // added joint damping so that scenes settle quickly
 };
 
 struct Model {
@@ -122,7 +124,7 @@ struct Gen {
                       "\" cone=\"" + cone[m.cone] + "\" jacobian=\"" + jac[r.below(3)] + "\" iterations=\"" + std::to_string(r.range(5, 40)) + "\"";
     if (r.chance(0.2)) opt += " noslip_iterations=\"" + std::to_string(r.range(1, 4)) + "\"";
     if (r.chance(0.15)) opt += " wind=\"0.5 0 0\" density=\"1.2\" viscosity=\"0.00002\"";
-    if (m.sleep) opt += " sleep_tolerance=\"" + f(r.chance(0.5) ? 1e-2 : 1e-3) + "\"";
+    if (m.sleep) opt += " sleep_tolerance=\"" + f(o.sleep_tolerance > 0 ? o.sleep_tolerance : (r.chance(0.5) ? 1e-2 : 1e-3)) + "\"";
     opt += "><flag";
     if (!m.island) opt += " island=\"disable\"";
     if (m.sleep) opt += " sleep=\"enable\"";
